@@ -1764,7 +1764,17 @@ func undoAdd(totalRows uint8, positions, origToDestroy []uint64, numAdds uint16,
 func getPrevPos(totalRows uint8, cached, deleted, toDestroy []uint64, numAdds uint16, numLeaves uint64) ([]uint64, []int) {
 	var created []int
 	cached, created = undoAdd(totalRows, cached, toDestroy, numAdds, numLeaves)
+
+	// The positions that were created in this block didn't exist before the
+	// additions so they must not be moved by undoing the deletions.
+	createdPos := make([]uint64, len(created))
+	for i, idx := range created {
+		createdPos[i] = cached[idx]
+	}
 	cached = undoDel(totalRows, cached, deleted, numLeaves-uint64(numAdds))
+	for i, idx := range created {
+		cached[idx] = createdPos[i]
+	}
 	return cached, created
 }
 
